@@ -218,6 +218,13 @@ static void build_ops(bool thorough) {
 	add({"a<-load(save(b),binary)", "serialization-load", "C17", F_NONE, [](MPool& m) { int al = m.a.alloc; m.a = m.b; m.a.alloc = al; return true; },
 		[](Pool& p) { bool const cf = W.count_faults; W.count_faults = false; std::stringstream ss; { boost::archive::binary_oarchive oa(ss); oa << boost::serialization::make_nvp("b", *p.b); } W.count_faults = cf; boost::archive::binary_iarchive ia(ss); ia >> boost::serialization::make_nvp("b", *p.a); }, {}});
 #endif
+	// assign from a range of the array's OWN rows (different size: the library must build the new value before it releases the old one) and from the other array's rows
+	add({"a.assign(a.begin()+1,a.end())", "assign(first,last)", "C06", F_ALLOC_UNSPEC, [](MPool& m) { if(m.a.count() == 0 || m.a.ext[0] < 2) { return false; } idx n = m.a.ext[0], row = m.a.count()/n; m.a.v.erase(m.a.v.begin(), m.a.v.begin() + row); m.a.ext[0] = n - 1; return true; },
+		[](Pool& p) { p.a->assign(p.a->begin() + 1, p.a->end()); }, {}});
+	add({"a.assign(a.begin(),a.begin()+1)", "assign(first,last)", "C06", F_ALLOC_UNSPEC, [](MPool& m) { if(m.a.count() == 0 || m.a.ext[0] < 2) { return false; } idx n = m.a.ext[0], row = m.a.count()/n; m.a.v.resize(static_cast<std::size_t>(row)); m.a.ext[0] = 1; return true; },
+		[](Pool& p) { p.a->assign(p.a->begin(), p.a->begin() + 1); }, {}});
+	add({"a.assign(b.begin(),b.end())", "assign(first,last)", "C06", F_ALLOC_UNSPEC, [](MPool& m) { if(m.b.count() == 0) { return false; } int al = m.a.alloc; m.a = m.b; m.a.alloc = al; return true; },
+		[](Pool& p) { p.a->assign(p.b->begin(), p.b->end()); }, {}});
 	add({"a.clear()", "clear", "C06", F_NEVER_ALLOC, [](MPool& m) { m.a.v.clear(); return true; }, [](Pool& p) { p.a->clear(); }, {}});
 	add({"a={}", "a={}", "C06", F_NEVER_ALLOC, [](MPool& m) { m.a.v.clear(); return true; }, [](Pool& p) { *p.a = {}; }, {}});
 	// ---- initializer lists (static shapes)
